@@ -123,6 +123,9 @@ def geometry_exact(files, dims):
 # ------------------------------------------------------------------------------------------------
 # generation
 
+# (RescaleSlope, RescaleIntercept): integral and dyadic fractional values (float arithmetic of the rescale is exact)
+RESCALES = [(None, None), (None, None), (1, 0), (2, -3), (3, None), (None, 10), (1, -7), (0.5, None), (0.25, 0.5), (1.5, -2), (20, None)]
+
 ACQ_PATTERNS = ['ascending', 'descending', 'interleaved', 'irregular', 'equal', 'inconsistent', 'missing', 'none_in_some']
 TR_VARIANTS = ['unique', 'unique', 'varying', 'absent', 'some']
 PHASE_VARIANTS = ['ROW', 'COL', 'ROW', 'COL', 'varying', 'absent', 'some', 'other']
@@ -150,9 +153,12 @@ def acq_offsets(rng, pattern, S):
 
 def make_stack_case(rng, S, T, V, orient='ax', direction=1, gap=2.0, origin=(0., 0., 0.), rows=2, cols=3, ps=(1.0, 1.0),
                     zs=None, mode=None, bits=12, pixrep=0, slope=None, intercept=None, acq='missing', tr='unique',
-                    phase='ROW', vo='LAS', vo2=None, tagrules=None, consts=None, kind=None, shuffle=True):
+                    phase='ROW', vo='LAS', vo2=None, tagrules=None, consts=None, kind=None, shuffle=True, alloc=16,
+                    pixmix=None):
     """One complete S x T x V grid as a conversion case.  mode: None (chosen from the dims) | 'none' | 'guess' | 'time' |
-    'vec' | 'timevec'.  Extra `tagrules` / `consts` are passed to stacklib.make_grid (stacklib rule names)."""
+    'vec' | 'timevec'.  Extra `tagrules` / `consts` are passed to stacklib.make_grid (stacklib rule names).
+    Pixel format: `bits`, `pixrep`, `slope`, `intercept`, `alloc` (BitsAllocated 8 | 16 | 32) apply to every file;
+    `pixmix` = a list drawn from {'rescale', 'bits', 'sign', 'alloc'} makes that aspect differ BETWEEN the files."""
     if mode is None:
         mode = 'timevec' if (V > 1 and T > 1) else 'vec' if V > 1 else rng.choice(['guess', 'time']) if T > 1 else rng.choice(['none', 'time'])
     rules = dict(tagrules or {})
@@ -173,19 +179,48 @@ def make_stack_case(rng, S, T, V, orient='ax', direction=1, gap=2.0, origin=(0.,
     offs_bad = acq_offsets(rng, 'descending', S) if S > 1 else offs
     npx = rows * cols
     nfiles = len(files)
-    # raw stored values: unique per (file, i, j) and inside the stored range
-    total = nfiles * npx
-    if pixrep == 0:
-        lo = 0
-        span = (1 << bits)
-    else:
-        lo = -(1 << (bits - 1))
-        span = (1 << bits)
-    if total > span:
-        raise ValueError('too many pixels for %d stored bits' % bits)
-    start = lo + rng.randrange(0, span - total + 1)
-    perm = list(range(total))
-    rng.shuffle(perm)
+    # per-file pixel format
+    pixmix = list(pixmix or [])
+    fmts = []
+    for k in range(nfiles):
+        a, b, pr, al, sl_, ic = alloc, bits, pixrep, alloc, slope, intercept
+        if 'alloc' in pixmix:
+            al = rng.choice([8, 16, 16, 32])
+        if 'sign' in pixmix:
+            pr = rng.choice([0, 1])
+        if al == 32:
+            pr = 1                                  # uint32 is outside the modelled dtype lattice
+        if 'bits' in pixmix:
+            b = rng.choice([8, 12, 15, 16])
+        b = min(b, al)
+        if 'rescale' in pixmix:
+            sl_, ic = rng.choice(RESCALES)
+        fmts.append({'alloc': al, 'bits': b, 'pixrep': pr, 'slope': sl_, 'intercept': ic})
+    if 'rescale' in pixmix and nfiles > 1 and len(set((f['slope'], f['intercept']) for f in fmts)) == 1:
+        fmts[0]['slope'], fmts[0]['intercept'] = None, None
+        fmts[-1]['slope'], fmts[-1]['intercept'] = 0.5, 10
+    # raw stored values inside each file's stored range, chosen so that the RESCALED values are unique in the case
+    used = set()
+    raw = []
+    for k in range(nfiles):
+        fk = fmts[k]
+        lo = 0 if fk['pixrep'] == 0 else -(1 << (fk['bits'] - 1))
+        hi = (1 << fk['bits']) - 1 if fk['pixrep'] == 0 else (1 << (fk['bits'] - 1)) - 1
+        a = Fraction(1) if fk['slope'] is None else Fraction(fk['slope'])
+        b = Fraction(0) if fk['intercept'] is None else Fraction(fk['intercept'])
+        mine = []
+        tries = 0
+        while len(mine) < npx:
+            tries += 1
+            if tries > 4000:
+                raise ValueError('no assignment with unique rescaled values')
+            x = rng.randint(lo, hi)
+            y = a * x + b
+            if y in used:
+                continue
+            used.add(y)
+            mine.append(x)
+        raw.append(mine)
     some_mask = [rng.random() < 0.5 for _ in range(nfiles)]
     if nfiles > 1:
         some_mask[0], some_mask[1] = True, False
@@ -196,11 +231,12 @@ def make_stack_case(rng, S, T, V, orient='ax', direction=1, gap=2.0, origin=(0.,
         f['ipp'] = [float(Fraction(origin[i]) + step * nrm[i]) for i in range(3)]
         f['ps'] = [float(ps[0]), float(ps[1])]
         f['zs'] = None if zs is None else float(zs)
-        f['bits_stored'] = bits
-        f['pixrep'] = pixrep
-        f['slope'] = slope
-        f['intercept'] = intercept
-        f['pixels'] = [[start + perm[k * npx + i * cols + j] for j in range(cols)] for i in range(rows)]
+        f['bits_stored'] = fmts[k]['bits']
+        f['pixrep'] = fmts[k]['pixrep']
+        f['alloc'] = fmts[k]['alloc']
+        f['slope'] = fmts[k]['slope']
+        f['intercept'] = fmts[k]['intercept']
+        f['pixels'] = [[raw[k][i * cols + j] for j in range(cols)] for i in range(rows)]
         tags = f['tags']
         # acquisition times: volume (t, v) starts 4 s after the previous one
         if acq not in ('missing',):
@@ -230,7 +266,14 @@ def make_stack_case(rng, S, T, V, orient='ax', direction=1, gap=2.0, origin=(0.,
             'time_order': time_order, 'vector_order': vector_order, 'files': files, 'add_order': order,
             'vo': vo, 'exact': bool(exact), 'dims': [S, T, V],
             'info': {'orient': orient, 'direction': direction, 'mode': mode, 'acq': acq, 'tr': tr, 'phase': phase,
-                     'bits': bits, 'pixrep': pixrep, 'slope': slope, 'intercept': intercept}}
+                     'bits': bits, 'pixrep': pixrep, 'slope': slope, 'intercept': intercept, 'alloc': alloc,
+                     'pixmix': pixmix}}
+    den = 1
+    for f in files:
+        for row in true_pixels(f):
+            for x in row:
+                den = max(den, Fraction(x).denominator)
+    case['den'] = den                      # rescaled values are multiples of 1/den (a power of two)
     if vo2 is not None:
         case['vo2'] = vo2
     return case
@@ -252,9 +295,10 @@ def gen_stack_case(rng, tier, **over):
     kw['ps'] = rng.choice([[1.0, 1.0], [0.5, 0.75], [2.0, 2.0], [0.25, 1.5]]) if exactish else rng.choice([[0.7, 0.9], [1.0, 1.0]])
     kw['zs'] = rng.choice([None, 1.5, 3.0, 0.5])
     kw['pixrep'] = rng.choice([0, 0, 1])
-    npix = kw['S'] * kw['T'] * kw['V'] * kw['rows'] * kw['cols']
-    kw['bits'] = rng.choice([b for b in (8, 12, 15, 16, 16) if npix <= (1 << b)])
-    kw['slope'], kw['intercept'] = rng.choice([(None, None), (None, None), (1, 0), (2, -3), (3, None), (None, 10), (1, -7)])
+    kw['alloc'] = rng.choice([16, 16, 16, 16, 8, 32])
+    kw['pixmix'] = [m for m in ('rescale', 'bits', 'sign', 'alloc') if rng.random() < 0.3]
+    kw['bits'] = rng.choice([8, 12, 15, 16, 16])
+    kw['slope'], kw['intercept'] = rng.choice(RESCALES)
     kw['acq'] = rng.choice(ACQ_PATTERNS)
     kw['tr'] = rng.choice(TR_VARIANTS)
     kw['phase'] = rng.choice(PHASE_VARIANTS)
@@ -262,14 +306,19 @@ def gen_stack_case(rng, tier, **over):
     kw['vo'] = rng.choice(orders + orders + ['', None])
     kw['vo2'] = rng.choice(orders + [''])
     kw.update(over)
-    return make_stack_case(rng, **kw)
+    try:
+        return make_stack_case(rng, **kw)
+    except ValueError:
+        # the requested mixture does not leave room for unique values: fall back to one 16-bit format
+        kw.update(pixmix=[m for m in kw.get('pixmix', []) if m == 'rescale'], alloc=16, bits=16)
+        return make_stack_case(rng, **kw)
 
 
 # ------------------------------------------------------------------------------------------------
 # data sets, abstraction
 
 def stored_dtype(spec):
-    return 'int16' if spec.get('pixrep') else 'uint16'
+    return ('int%d' if spec.get('pixrep') else 'uint%d') % spec.get('alloc', 16)
 
 
 def build_ds(spec):
@@ -280,6 +329,7 @@ def build_ds(spec):
         ds.BitsStored = int(spec['bits_stored'])
         ds.HighBit = int(spec['bits_stored']) - 1
     ds.PixelRepresentation = int(spec.get('pixrep', 0))
+    ds.BitsAllocated = int(spec.get('alloc', 16))
     if spec.get('pix', True) and 'pixels' in spec:
         ds.PixelData = np.array(spec['pixels'], dtype=stored_dtype(spec)).tobytes()
     if spec.get('slope') is not None:
@@ -295,9 +345,16 @@ def true_pixels(spec):
     """ground truth: rescaled pixel values of a spec"""
     sl_ = spec.get('slope')
     ic = spec.get('intercept')
-    a = 1 if sl_ is None else sl_
-    b = 0 if ic is None else ic
-    return [[a * x + b for x in row] for row in spec['pixels']]
+    a = Fraction(1) if sl_ is None else Fraction(sl_)
+    b = Fraction(0) if ic is None else Fraction(ic)
+    out = [[a * x + b for x in row] for row in spec['pixels']]
+    return [[int(x) if x.denominator == 1 else x for x in row] for row in out]
+
+
+def scaled_pixels(case, spec):
+    """true rescaled pixel values times the case's common denominator: the integers the observation holds"""
+    den = int(case.get('den', 1))
+    return [[int(Fraction(x) * den) for x in row] for row in true_pixels(spec)]
 
 
 def fr(x):
@@ -320,12 +377,14 @@ def abstract_gfile(dcmstack, spec, ds, case):
     meta = default_extractor(ds)
     data = np.asarray(dw.get_data())
     assert data.ndim == 2
+    den = int(case.get('den', 1))
     pix = []
     for row in data.tolist():
         r = []
         for x in row:
-            assert float(x) == int(x), 'non-integral pixel value'
-            r.append(int(x))
+            y = Fraction(x) * den           # values are multiples of 1/den; the model works on value * den
+            assert y.denominator == 1, 'pixel value is not a multiple of 1/den'
+            r.append(int(y))
         pix.append(r)
     a['gpix'] = pix
     iopm = dw.image_orient_patient          # (3, 2): column 0 = iop[0:3], column 1 = iop[3:6]
@@ -426,15 +485,17 @@ def run_to_nifti(dcmstack, case, embed=False, meta_of=None, vo='__case__', datas
     return st, wid, img, err, cap.calls
 
 
-def observe_image(img):
-    """array / affine / header fields of a conversion result as plain values (floats exact)"""
+def observe_image(img, den=1):
+    """array / affine / header fields of a conversion result as plain values (floats exact); voxel values are
+    reported multiplied by `den` (they are multiples of 1/den)"""
     import numpy as np
     hdr = img.header
     arr = np.asanyarray(img.dataobj)
     flat = []
     for x in np.ascontiguousarray(arr).ravel().tolist():
-        assert float(x) == int(x)
-        flat.append(int(x))
+        y = Fraction(x) * den
+        assert y.denominator == 1
+        flat.append(int(y))
     o = {'shape': [int(x) for x in img.shape], 'data': flat, 'dtype': str(img.get_data_dtype()),
          'array_dtype': str(arr.dtype),
          'affine': [[float(x) for x in row] for row in np.asarray(img.affine, dtype=np.float64).tolist()],
@@ -469,7 +530,7 @@ def locate_files(case, shape, flat):
     vi = value_index(shape, flat)
     out = {}
     for f in case['files']:
-        hits = vi.get(true_pixels(f)[0][0], [])
+        hits = vi.get(scaled_pixels(case, f)[0][0], [])
         out[f['id']] = hits[0] if len(hits) == 1 else None
     return out
 
@@ -485,13 +546,13 @@ def run_conversion_case(dcmstack, case):
     if err is not None:
         obs['err'] = err          # (the key is present only when to_nifti raised)
     if img is not None:
-        obs.update(observe_image(img))
+        obs.update(observe_image(img, int(case.get('den', 1))))
     if 'vo2' in case and err is None:
         dss2 = [build_ds(f) for f in case['files']]
         st2, wid2, img2, err2, calls2 = run_to_nifti(dcmstack, case, False, None, vo=case['vo2'], datasets=dss2)
         obs['alt'] = {} if err2 is None else {'err': err2}
         if img2 is not None:
-            obs['alt'].update(observe_image(img2))
+            obs['alt'].update(observe_image(img2, int(case.get('den', 1))))
     return obs
 
 
@@ -551,16 +612,23 @@ def vec_close(a, b, exact, tol=Fraction(1, 10 ** 6)):
     return all(abs(x - y) <= tol for x, y in zip(a, b))
 
 
+def file_dtype(spec):
+    """dtype of the single-file image: the stored integer type, float64 once a rescale is applied"""
+    a = 1 if spec.get('slope') is None else spec['slope']
+    b = 0 if spec.get('intercept') is None else spec['intercept']
+    return 'float64' if (a != 1 or b != 0) else stored_dtype(spec)
+
+
 def expected_dtype(case):
-    f0 = case['files'][0]
-    base = stored_dtype(f0)
-    a = 1 if f0.get('slope') is None else f0['slope']
-    b = 0 if f0.get('intercept') is None else f0['intercept']
-    if a != 1 or b != 0:
-        return 'float64'
-    if base == 'uint16' and f0['bits_stored'] < 16:
+    """the dtype rule of the property: numpy's promotion of the dtypes of ALL files (so that every rescaled value is
+    representable), unsigned short -> short when no file uses all 16 bits"""
+    import numpy as np
+    names = sorted(set(file_dtype(f) for f in case['files']))
+    j = str(np.result_type(*[np.dtype(n) for n in names]))
+    bits = max(f['bits_stored'] for f in case['files'])
+    if j == 'uint16' and bits < 16:
         return 'int16'
-    return base
+    return j
 
 
 def world_content(case, ob):
@@ -589,12 +657,12 @@ def oracle_c02(case, obs):
         return 'values: output has %d voxels for %d source pixels' % (len(flat), npix)
     vi = value_index(shape, flat)
     for f in case['files']:
-        tp = true_pixels(f)
+        tp = scaled_pixels(case, f)
         for i in range(f['rows']):
             for j in range(f['cols']):
                 hits = vi.get(tp[i][j], [])
                 if len(hits) != 1:
-                    return 'values: pixel (%d,%d) of file %d (value %d) occurs %d times in the output' % (i, j, f['id'], tp[i][j], len(hits))
+                    return 'values: pixel (%d,%d) of file %d (rescaled value %s) occurs %d times in the output' % (i, j, f['id'], true_pixels(f)[i][j], len(hits))
                 w = apply_affine(obs['affine'], hits[0])
                 if not vec_close(w, pixel_world(f, i, j), exact):
                     return ('geometry: pixel (%d,%d) of file %d sits at voxel %s whose world position %s is not its patient position %s'
@@ -602,8 +670,11 @@ def oracle_c02(case, obs):
                 s, t, v = f['cell']
                 if list(hits[0][3:]) != [t, v][:len(shape) - 3] and case['info'].get('mode') != 'custom':
                     return 'values: file %d of volume (t=%d, v=%d) sits at %s' % (f['id'], t, v, hits[0])
-    want = expected_dtype(case)
-    if obs['dtype'] != want or obs['array_dtype'] != want:
+    try:
+        want = expected_dtype(case)
+    except Exception:
+        want = None              # numpy not importable in the driver: the dtype clause is left to the correspondence
+    if want is not None and (obs['dtype'] != want or obs['array_dtype'] != want):
         return 'dtype: output dtype %s / %s, expected %s' % (obs['dtype'], obs['array_dtype'], want)
     alt = obs.get('alt')
     if alt is not None:
@@ -657,7 +728,7 @@ def oracle_c20(case, obs):
     loc = {}
     vi = value_index(shape, flat)
     for f in case['files']:
-        tp = true_pixels(f)
+        tp = scaled_pixels(case, f)
         h00 = vi.get(tp[0][0], [])
         h10 = vi.get(tp[1][0], []) if f['rows'] > 1 else []
         h01 = vi.get(tp[0][1], []) if f['cols'] > 1 else []
